@@ -154,6 +154,16 @@ def _configs(tier):
     for n in range(1, 5 if T else 4):
         for w in W3:
             A({'block': 'AnyEqual', 'n': n, 'w': w})
+    # scale: more inputs than any pairwise / tree / halving construction treats specially
+    for n in (4, 5, 6):
+        A({'block': 'AnyEqual', 'n': n, 'w': 2})
+    A({'block': 'AnyEqual', 'n': 5, 'w': 3})
+    for b in ('And', 'Or', 'Xor', 'Nor'):
+        for n in (6, 7, 9, 17):
+            A({'block': b, 'n': n, 'w': 1})
+    for n in (5, 6):
+        A({'block': 'Minterm', 'n': n, 'value': (1 << n) - 2})
+        A({'block': 'Minterm', 'n': n, 'value': 21 & ((1 << n) - 1)})
     if T:
         A({'block': 'AnyEqual', 'n': 5, 'w': 1})
     # wide configurations (sizes that invite special-casing), boundary-value alphabet on the wide ports
